@@ -36,6 +36,14 @@ func drawCoreApps(t *rapid.T, cfg sim.CoreCfg, maxWrites, maxTotal int) [2]sim.A
 			mw = 0
 		}
 		app[w].Writes = sim.DrawWriteSizes(t, label, mss, mw, maxTotal, maxOne)
+		// message mode: the documented fragment limit itself (255 accepted, 256 and
+		// more refused) - only where the peer's window can hold such a message
+		if !cfg.Stream && cfg.EP[1-w].RcvWnd >= 300 && mss <= 600 && rapid.IntRange(0, 3).Draw(t, label+"fragLimit") == 0 {
+			k := rapid.SampledFrom([]int{254, 255, 256, 257}).Draw(t, label+"nfrags")
+			big := k*mss - rapid.IntRange(0, mss-1).Draw(t, label+"lastFrag")
+			pos := rapid.IntRange(0, len(app[w].Writes)).Draw(t, label+"fragLimitPos")
+			app[w].Writes = append(app[w].Writes[:pos], append([]int{big}, app[w].Writes[pos:]...)...)
+		}
 		app[w].ReadBufs = sim.DrawReadBufs(t, label, mss)
 		if rapid.IntRange(0, 3).Draw(t, label+"gaps") == 0 {
 			for range app[w].Writes {
